@@ -337,6 +337,19 @@ func genSteps(t *rapid.T, key string, tree *Iface, n int) []BStep {
 			st.API, st.Flags = "send", varlink.Oneway
 			st.Reply = BReply{Kind: "reply", Out: g.fields(m.Out)}
 			st.Recvs = 0
+			// ... also when the answer would be a declared error or the embedded MethodNotImplemented: still no bytes
+			switch u := rapid.IntRange(0, 3).Draw(t, "owshape"); {
+			case u == 0 && len(es) > 0:
+				e := rapid.SampledFrom(es).Draw(t, "owerr")
+				et := e.T
+				if et == nil {
+					et = emptyStruct()
+				}
+				st.Reply = BReply{Kind: "error", Error: e.Name, Out: g.fields(et)}
+			case u == 1:
+				st.Impl = "embed"
+				st.Reply = BReply{Kind: "none"}
+			}
 		case r == 9: // upgrade: answered with a typed reply, with a declared error, or not overridden at all
 			st.API = "upgrade"
 			st.Reply = BReply{Kind: "reply", Out: g.fields(m.Out)}
@@ -758,6 +771,8 @@ func TestC08Fixed(t *testing.T) {
 			mk("call", 0, in, BReply{Kind: "none"}, 0, "embed"),
 			mk("send", varlink.More, in, BReply{Kind: "reply", Out: out, Continues: 2, ContOut: [][]json.RawMessage{out2, out}}, 3, "override"),
 			mk("send", varlink.Oneway, in, BReply{Kind: "reply", Out: out}, 0, "override"),
+			mk("send", varlink.Oneway, in, BReply{Kind: "none"}, 0, "embed"),
+			mk("send", varlink.Oneway, in2, BReply{Kind: "error", Error: "Plain"}, 0, "override"),
 			mk("upgrade", 0, in2, BReply{Kind: "reply", Out: out2}, 0, "override"),
 			mk("upgrade", 0, in, BReply{Kind: "error", Error: "Failed", Out: []json.RawMessage{json.RawMessage(`"busy"`), json.RawMessage("null"), json.RawMessage("[7]")}}, 0, "override"),
 			mk("upgrade", 0, in, BReply{Kind: "none"}, 0, "embed"),
